@@ -1,4 +1,5 @@
 import Mochi.Model.Broker
+import Mochi.Lemmas.BrokerCounters
 /-!
 # C38 — Reported $SYS statistics match the broker's actual state
 
@@ -8,10 +9,13 @@ a dropped outbound message", "fix: retained counter follows the expiry of retain
 expired sessions are fully discarded", "fix: Unsubscribe … report whether the subscription existed".
 Proved: the store primitives change the number of records exactly as the handlers account for them
 (`Set` adds one iff the id was new, `Delete` removes one iff it existed, `ClearInflights` discounts
-exactly what it removes, the retained counter is the store size).  The global equality
-"counter = actual count, never negative" over whole histories is checked after every generated
-history step by the correspondence oracle (reported counters vs counts taken from the broker's own
-data structures).
+exactly what it removes, the retained counter is the store size) — and, in the second half of this
+file, the global equality "counter = actual count, never negative" for ALL histories of the model
+(`C38_retained_all_histories`, `C38_subs_all_histories`, `C38_inflight_all_histories`,
+`C38_connected_quiescent_all_histories`, `C38_nonneg_all_histories`; machinery in
+`Mochi/Lemmas/BrokerCounters.lean`).  The correspondence oracle still compares the reported counters with
+counts taken from the broker's own data structures after every generated history step: that ties the
+model to the Go code, the theorems tie the counters to the model's data structures.
 -/
 namespace Mochi.Broker
 open Mochi.Topics
@@ -37,5 +41,203 @@ theorem C38_retained_counter (s : Server) (pk : Msg) (ha : s.caps.retainAvailabl
 
 theorem C38_retained_tick (s : Server) (now : Int) : (tickRetained s now).info.retained = (tickRetained s now).rmsgs.length := by
   unfold tickRetained; simp
+
+/-! ## the counters in ALL histories (`Mochi/Lemmas/BrokerCounters.lean`)
+
+`run (init caps) ops` is the model state after the history `ops`.  Hypotheses (all decidable):
+* `OpsFresh`: connection numbers are not reused (as in `WF_run`);
+* `OpsSched1` / `OpsSched`: the history is well scheduled — a connection whose handler is parked in the
+  authentication hook (`OpsSched1`), or anywhere inside `attachClient` / right after its read loop (`OpsSched`),
+  delivers nothing and is not dropped until `release`; no network client uses the inline client's id.
+  These exclude histories the harness cannot produce (a parked goroutine does not read its socket); the
+  model processes them, and they falsify the counters IN THE MODEL ONLY — see the `_needs_sched` examples. -/
+
+/-- **retained**: after EVERY history the reported number of retained messages is the size of the retained store -/
+theorem C38_retained_all_histories (caps : Caps) (ops : List Op) :
+    (run (init caps) ops).info.retained = (run (init caps) ops).rmsgs.length :=
+  CountedRetained_run caps ops
+
+/-- … which is also the size of the index's retained store (`Topics.Retained.Len()`, the number Go stores into
+    `Info.Retained`, server.go:1012 and 1775): the two stores have the same topics -/
+theorem C38_retained_index_all_histories (caps : Caps) (ops : List Op) :
+    (run (init caps) ops).info.retained = (run (init caps) ops).topics.retained.length := by
+  rw [C38_retained_all_histories]
+  have := congrArg List.length (RetKeys_run caps ops)
+  simp only [List.length_map] at this
+  rw [this]
+
+/-- **subscriptions**: after EVERY history the reported number of subscriptions is the number of (client, filter)
+    entries — plain and shared — of the topic index, and the index is well-formed -/
+theorem C38_subs_all_histories (caps : Caps) (ops : List Op) :
+    (run (init caps) ops).info.subs = Mochi.Topics.cnt (run (init caps) ops).topics.nodes :=
+  (CountedSubs_run caps ops).2
+
+/-- **in-flight**: after every well-scheduled history the reported number of in-flight messages is the number of
+    in-flight records held by all client objects -/
+theorem C38_inflight_all_histories (caps : Caps) (ops : List Op) (hf : OpsFresh (init caps) ops)
+    (hs : OpsSched1 (init caps) ops) : (run (init caps) ops).info.inflight = sumAll (run (init caps) ops) :=
+  (InflInv_run caps ops hf hs).eq
+
+/-- **connected**: at every quiescent point of every well-scheduled history the reported number of connected
+    clients is the number of open network client objects -/
+theorem C38_connected_quiescent_all_histories (caps : Caps) (ops : List Op) (hf : OpsFresh (init caps) ops)
+    (hs : OpsSched (init caps) ops) (hq : Quiescent (run (init caps) ops)) :
+    (run (init caps) ops).info.connected = liveClients (run (init caps) ops) :=
+  (Counted_run caps ops hf hs).connected_quiescent hq
+
+/-- … and at every point, quiescent or not, it is the number of connection handlers between their increment and
+    their deferred decrement -/
+theorem C38_connected_all_histories (caps : Caps) (ops : List Op) (hf : OpsFresh (init caps) ops)
+    (hs : OpsSched (init caps) ops) : (run (init caps) ops).info.connected = hcount (run (init caps) ops) :=
+  (Counted_run caps ops hf hs).connected_eq
+
+/-- **no counter is ever negative** -/
+theorem C38_nonneg_all_histories (caps : Caps) (ops : List Op) (hf : OpsFresh (init caps) ops)
+    (hs : OpsSched (init caps) ops) :
+    0 ≤ (run (init caps) ops).info.retained ∧ 0 ≤ (run (init caps) ops).info.inflight ∧
+    0 ≤ (run (init caps) ops).info.subs ∧ 0 ≤ (run (init caps) ops).info.connected :=
+  (Counted_run caps ops hf hs).nonneg
+
+/-- `retained` and `subs` are non-negative without any hypothesis on the history -/
+theorem C38_nonneg_retained_subs (caps : Caps) (ops : List Op) :
+    0 ≤ (run (init caps) ops).info.retained ∧ 0 ≤ (run (init caps) ops).info.subs := by
+  rw [C38_retained_all_histories, C38_subs_all_histories]
+  exact ⟨Int.natCast_nonneg _, Int.natCast_nonneg _⟩
+
+/-! ### sums over the Clients MAP (what `VerifActual` computes)
+
+The statement with "registered client objects" in place of "all client objects" is FALSE — in the model and,
+by the same schedule, in the Go code: `attachClient` ends with `s.Clients.Delete(cl.ID)` (server.go:499-503),
+which deletes by client id whoever is registered under it.  Schedule: client `s` (MQTT 5, session expiry 0) loses
+its connection, its handler is parked at `attach.beforeCleanup` (server.go:493); `clearExpiredClients`
+(server.go:1738-1757) removes the stopped client from the map; a new connection with the same id registers (no
+takeover: nothing to take over), receives a QoS 2 publish (one in-flight record); the parked handler runs on,
+`expire && !IsTakenOver()` holds, and `Clients.Delete` unregisters the NEW client.  The counters still count it;
+the map does not contain it any more. -/
+
+/-- the statement with sums over the Clients map -/
+def C38_inflight_registered_statement : Prop :=
+  ∀ (ops : List Op), OpsFresh (init {}) ops → OpsSched (init {}) ops →
+    (run (init {}) ops).info.inflight = sumReg (run (init {}) ops)
+
+def C38_connected_registered_statement : Prop :=
+  ∀ (ops : List Op), OpsFresh (init {}) ops → OpsSched (init {}) ops → Quiescent (run (init {}) ops) →
+    (run (init {}) ops).info.connected = liveReg (run (init {}) ops)
+
+/-- the delete-by-id schedule -/
+def raceHistory : List Op :=
+  [.connect 1 { ver := 5, clean := false, id := [115], sei := some 0 },
+   .dropHold 1,
+   .tick "clients" 100000000000,
+   .connect 2 { ver := 5, clean := false, id := [115], sei := some 0 },
+   .recv 2 (.publish 2 false false 1 [116] [120] 0 none),
+   .release 1]
+
+/-- fresh, well scheduled, quiescent at the end — and the new client (object 2) is open, holds one in-flight
+    record, is counted by both counters, and is not in the Clients map -/
+theorem C38_inflight_counterexample :
+    OpsFresh (init {}) raceHistory ∧ OpsSched (init {}) raceHistory ∧ Quiescent (run (init {}) raceHistory) ∧
+    (run (init {}) raceHistory).info.inflight = 1 ∧ sumReg (run (init {}) raceHistory) = 0 ∧
+    sumAll (run (init {}) raceHistory) = 1 := by decide
+
+theorem C38_connected_counterexample :
+    (run (init {}) raceHistory).info.connected = 1 ∧ liveReg (run (init {}) raceHistory) = 0 ∧
+    liveClients (run (init {}) raceHistory) = 1 ∧ (run (init {}) raceHistory).clients.length = 1 := by decide
+
+theorem C38_inflight_registered_false : ¬ C38_inflight_registered_statement := by
+  intro h
+  have := h raceHistory (by decide) (by decide)
+  revert this
+  decide
+
+theorem C38_connected_registered_false : ¬ C38_connected_registered_statement := by
+  intro h
+  have := h raceHistory (by decide) (by decide) (by decide)
+  revert this
+  decide
+
+/-- **in-flight, over the Clients map (partial)**: whenever no session is orphaned (`NoOrphans`, decidable: every
+    object that holds in-flight records or is an open network client is in the map) the sums over the map are the
+    sums over all objects -/
+theorem C38_inflight_registered_partial (caps : Caps) (ops : List Op) (hf : OpsFresh (init caps) ops)
+    (hs : OpsSched1 (init caps) ops) (ho : NoOrphans (run (init caps) ops)) :
+    (run (init caps) ops).info.inflight = sumReg (run (init caps) ops) := by
+  rw [C38_inflight_all_histories caps ops hf hs, sumReg_eq_sumAll (WF_run caps ops hf) ho]
+
+theorem C38_connected_registered_partial (caps : Caps) (ops : List Op) (hf : OpsFresh (init caps) ops)
+    (hs : OpsSched (init caps) ops) (hq : Quiescent (run (init caps) ops)) (ho : NoOrphans (run (init caps) ops)) :
+    (run (init caps) ops).info.connected = liveReg (run (init caps) ops) := by
+  rw [C38_connected_quiescent_all_histories caps ops hf hs hq, liveReg_eq_liveClients (WF_run caps ops hf) ho]
+
+/-! ### why the schedule hypotheses are there (model artefacts, not Go behaviour)
+
+The model executes an op on a connection whose handler is parked as if the handler were in its read loop; in Go
+the parked goroutine reads nothing (`attachClient` is still before `cl.Read`, server.go:483) and runs its
+tear-down only once.  `connect` with the inline client's id makes the model run `detach` for object 0 (`exLive`),
+i.e. the deferred decrement of a handler the inline client does not have (`NewServer` / `AddListener` never call
+`attachClient` for it). -/
+
+/-- a QoS 2 PUBLISH "received" from a client parked in the authentication hook: its PUBREC record is lost when
+    the released handler inherits the existing session -/
+theorem C38_inflight_needs_sched :
+    let h : List Op :=
+      [.connectHold 1 { ver := 4, clean := false, id := [115] } 1,
+       .recv 1 (.publish 2 false false 1 [116] [120] 0 none),
+       .connect 2 { ver := 4, clean := false, id := [115] },
+       .recv 2 (.publish 2 false false 5 [116] [120] 0 none),
+       .release 1]
+    OpsFresh (init {}) h ∧ ¬ OpsSched1 (init {}) h ∧
+      (run (init {}) h).info.inflight = 2 ∧ sumAll (run (init {}) h) = 1 := by decide
+
+/-- a connection dropped while its handler is parked before the CONNACK: the model decrements twice -/
+theorem C38_connected_needs_sched :
+    let h : List Op := [.connectHold 1 { ver := 4, clean := true, id := [115] } 2, .drop 1, .release 1]
+    OpsFresh (init {}) h ∧ ¬ OpsSched (init {}) h ∧ Quiescent (run (init {}) h) ∧
+      (run (init {}) h).info.connected = -1 := by decide
+
+/-- a network client with the id `inline`: the model runs the tear-down of a handler the inline client never had -/
+theorem C38_connected_needs_inline_id :
+    let h : List Op := [.connect 1 { ver := 4, clean := true, id := inlineID }]
+    OpsFresh (init {}) h ∧ ¬ OpsSched (init {}) h ∧ Quiescent (run (init {}) h) ∧
+      (run (init {}) h).info.connected = 0 ∧ liveClients (run (init {}) h) = 1 := by decide
+
+/-! ### non-vacuity
+
+A persistent subscriber (connection 1) goes offline; a publisher (connection 2) sends two QoS 1 messages to its
+topic, the first retained; the subscriber resumes its session on connection 3 (the two messages are resent and
+stay in flight) and is taken over by connection 4; finally a third client is parked before its CONNACK. -/
+def countersHistory : List Op :=
+  [.connect 1 { ver := 4, clean := false, id := [115] },
+   .recv 1 (.subscribe 1 0 [{ filter := [116], qos := 1 }]),
+   .drop 1,
+   .connect 2 { ver := 4, clean := true, id := [112] },
+   .recv 2 (.publish 1 false true 1 [116] [120] 0 none),
+   .recv 2 (.publish 1 false false 2 [116] [121] 0 none),
+   .connect 3 { ver := 4, clean := false, id := [115] },
+   .connect 4 { ver := 4, clean := false, id := [115] },
+   .connectHold 5 { ver := 5, clean := true, id := [113] } 2]
+
+example : OpsFresh (init {}) countersHistory ∧ OpsSched (init {}) countersHistory := by decide
+
+/-- after the first eight ops (a quiescent state): 2 connected, 1 subscription, 1 retained, 2 in flight -/
+example :
+    Quiescent (run (init {}) (countersHistory.take 8)) ∧ NoOrphans (run (init {}) (countersHistory.take 8)) ∧
+    (run (init {}) (countersHistory.take 8)).info.connected = 2 ∧ liveClients (run (init {}) (countersHistory.take 8)) = 2 ∧
+    (run (init {}) (countersHistory.take 8)).info.subs = 1 ∧
+    (run (init {}) (countersHistory.take 8)).info.retained = 1 ∧
+    (run (init {}) (countersHistory.take 8)).info.inflight = 2 ∧ sumAll (run (init {}) (countersHistory.take 8)) = 2 ∧
+    sumReg (run (init {}) (countersHistory.take 8)) = 2 := by decide
+
+/-- after all nine ops (a handler is parked: not quiescent): the parked handler is counted -/
+example :
+    ¬ Quiescent (run (init {}) countersHistory) ∧ (run (init {}) countersHistory).info.connected = 3 ∧
+    hcount (run (init {}) countersHistory) = 3 := by decide
+
+/-- the theorems apply to it -/
+example : (run (init {}) countersHistory).info.inflight = sumAll (run (init {}) countersHistory) :=
+  C38_inflight_all_histories {} countersHistory (by decide) (by decide)
+
+example : (run (init {}) (countersHistory.take 8)).info.connected = liveClients (run (init {}) (countersHistory.take 8)) :=
+  C38_connected_quiescent_all_histories {} (countersHistory.take 8) (by decide) (by decide) (by decide)
 
 end Mochi.Broker
